@@ -141,6 +141,11 @@ def rules(ctx: Ctx) -> None:
     # ---- R08.6 the alias name is not picked by a position at which the alias operator or the column list can stand
     _alias_name_rule(ctx)
 
+    # ---- R08.8 (= R02.11): the qualifier of a dotted column reference is the part next to the column (removing an alias turns `a.c` into `t.c` or
+    # `s.t.c`: all must name the same relation)
+    _imp8(ctx, "C02", {"R02.11": "R08.8"})
+
+
 
 # ---- R08.6 -------------------------------------------------------------------------------------------------------------------
 _NOT_A_NAME = {"bracketed", "alias_operator", "keyword", "symbol"}
